@@ -37,9 +37,9 @@ CHECKS["C05"] = {
             "law) are stored like plain values; xsd:dateTime round trip is only checked on samples (partial). Since the repair "
             "of finding C05-F1 in /repo (1eddd9a) the normal-form theorem holds for every call, also one naming prov:collection "
             "(C05_single_valued_any_call, C05_second_value_refused_any_call: every formal attribute but the members of a "
-            "collection keeps at most one value), and is carried through the interpreter: in every world built by a history of "
-            "the calls the property quantifies over (with namespace, bundle, reading, exporting and record-re-creating calls in "
-            "between) every record is in normal form (C05_reachable_single_valued). Tie: "
+            "collection keeps at most one value), and is carried through the whole interpreter: in every world built by any history "
+            "of calls (those the property quantifies over and every other one, deriving calls and PROV-JSON deserialisation "
+            "included) every record is in normal form (C05_reachable_single_valued: the statement of the property). Tie: "
             "extracted model vs implementation on API programs (all 18 kinds, factories read from the AST, every argument "
             "representation), full state compared after every call; direct oracle on the implementation: normal form, "
             "no replaced/lost values after every call, entry-path table.",
